@@ -464,6 +464,8 @@ class MinMaxAggregator:
                 )
             ):
                 return self._simple_translation(rule, agg)
+        if agg.sign != Sign.NoSign:
+            return [rule]  # the chain translation replaces the literal by positive literals: not valid under negation
         return self._chain_translation(rule, agg)
 
     def _create_replacement(
